@@ -8,7 +8,7 @@ import common as c
 
 PID = "C17"
 MANIFEST = {
-    "text": "29 Coq theorems over the unit table regenerated from the built crate on every run: exhaustive (vm_compute, "
+    "text": "30 Coq theorems over the unit table regenerated from the built crate on every run: exhaustive (vm_compute, "
             "bound = the table) identifier resolution / no duplicates / alias / ambiguity / category / prefix-ratio / "
             "well-formedness theorems; unbounded theorems on resolve_unit for every string and table; self-conversion "
             "identity in every arithmetic (bit-exact in binary64); exact-rational there-and-back and composition laws about "
@@ -20,11 +20,12 @@ MANIFEST = {
             "2^-400 <= |v| <= 2^400 (C17_there_and_back_float_table, C17_composition_float_table); temperature kind: "
             "any chain of +c,-c,*c,/c in binary64 stays within the first-order error recurrence of the exact chain "
             "(C17_affine_chain_error) and there-and-back between temperature units of the table is within "
-            "200*(2^-53*9*(|v|+1000)+2^-1075) for |v| <= 2^1000 (C17_there_and_back_float_temperature)",
+            "200*(2^-53*9*(|v|+1000)+2^-1075) for |v| <= 2^1000 (C17_there_and_back_float_temperature), composition within "
+            "twice that (C17_composition_float_temperature)",
     "note": "trusted: Coq kernel + vm_compute; harness dump-units (reflective dump of get_all_units()); the hand "
             "transcription of resolve_unit/convert (validated by the UNITS/RESOLVE/LOWER/BUILTIN correspondence streams); "
-            "Rust to_lowercase modelled only on ASCII + the dumped non-ASCII characters; binary64 composition for the "
-            "temperature kind is tested (impl-level search), not proved; axioms: none except the "
+            "Rust to_lowercase modelled only on ASCII + the dumped non-ASCII characters; the binary64 bounds of all "
+            "three kinds are proved (there-and-back and composition); axioms: none except the "
             "allow-listed real-number axioms under the Flocq theorem",
     "design_ref": "notes/C17.md (DESIGN.md section 6 C17)",
 }
